@@ -135,6 +135,20 @@ def install(it, ex, trace, existing=None, parent_exists=True, faults=None):
     import shutil
     from pyvc.sym import OutOfSubset
 
+    # pure yes/no questions about the live file system: the contract holds for every state of it, so the answer is arbitrary
+    # (yes, no, or an OSError such as EACCES / ELOOP); they leave no effect in the trace
+    def observe(name):
+        def f(it_, *a, **k):
+            r = ex.choose(3)
+            if r == 2:
+                raise os_error(errno.EACCES)
+            return bool(r)
+        return f
+    for n in ("lexists", "isfile", "isdir", "islink", "samefile", "ismount"):
+        fn = getattr(os.path, n, None)
+        if fn is not None and fn not in it.models:
+            it.models[fn] = observe(n)
+
     def deny(name):
         def f(it_, *a, **k):
             raise OutOfSubset(f"{name} is not modelled by the ghost operating system of this contract")
